@@ -1036,6 +1036,12 @@ func DeleteHistoricVersions(ctx context.Context, s *DB, before time.Time) error 
 			if err != nil {
 				return err
 			}
+			// The handle is now on no stored version, like one opened
+			// on an empty bucket: do not go on naming the deleted one
+			// (Roots), nor retire it again with the next commit.
+			s.crdt.Source = nil
+			s.crdt.MergeSources = nil
+			s.mergedRoots = map[string][]byte{}
 		}
 	}
 
